@@ -55,6 +55,9 @@ func nativeField(v any, name string) (any, error) {
 		if name == "Z" {
 			return x.Z, nil
 		}
+		if name == "Get" {
+			return x.Get, nil // an ordinary field here; on the outer S the METHOD of that name shadows it
+		}
 		return nil, errWalk
 	case map[string]any:
 		if e, ok := x[name]; ok {
